@@ -15,6 +15,13 @@
                      __FILE__, __LINE__);                                      \
     } while (0)
 
+/* ABT_mutex_memory & co. are structs of ints (4-byte aligned), but the library overlays
+ * structures with pointers on them: a file-scope object is 16-byte aligned by the ABI, a member
+ * of a struct is not.  Members are placed the way a file-scope object would be (UBSan in the VS
+ * variant reports the misaligned member access otherwise; it is harmless on x86-64 and outside
+ * the listed properties). */
+#define WL_ALIGNED_MEMORY __attribute__((aligned(16)))
+
 #define WL_MAX_ES 6
 #define WL_MAX_POOLS 16
 
